@@ -60,6 +60,7 @@ def run(tier, seed, only_case=None):
     r.assumptions = ["chromosome names a..e; sizes below 2^31"]
     if only_case is None:
         r.model_check("MC_Extent", "MC_Extent_quick.cfg" if tier == "quick" else "MC_Extent_thorough.cfg")
+        r.expect_refuted("MC_Extent", "MC_Extent_loose.cfg", "ReportedSizeTrueLoose")    # F1: the pinned bin-size inference is refuted
         cs = cases(tier, seed)
     else:
         cs = [only_case]
